@@ -67,12 +67,14 @@ func c12Lists() [][]int {
 	lists := [][]int{{}}
 	n := len(c12U)
 	for a := 0; a < n; a++ {
-		lists = append(lists, []int{a})
+		lists = append(lists, []int{a}, []int{a, a})
 		for b := 0; b < n; b++ {
 			if b == a {
 				continue
 			}
 			lists = append(lists, []int{a, b})
+			// lists that name a suite more than once
+			lists = append(lists, []int{a, b, a}, []int{a, a, b}, []int{a, b, b}, []int{b, a, b, a})
 			for c := 0; c < n; c++ {
 				if c == a || c == b {
 					continue
